@@ -209,6 +209,7 @@ func init() {
 			k.WDecorate = 1
 			k.WInvoke = 9
 			k.PObjParam = 70
+			k.PSoftSibling = 60
 			return k
 		},
 		clauses: []string{COutsideClosure, CGroupForeign, CSoftLower, CSoftDup, CBadExec, CExecTwice},
